@@ -9,11 +9,14 @@ import (
 	"fmt"
 	"go/token"
 	"go/types"
+	"os"
 	"sort"
 	"sync"
 
 	"golang.org/x/tools/go/ssa"
 )
+
+var schedLog = os.Getenv("SYMGO_SCHEDLOG") != ""
 
 type G struct {
 	id       int
@@ -29,6 +32,7 @@ type G struct {
 	yielding bool
 	exited   chan struct{}
 	epoch    int // number of times the goroutine handed the baton to another one
+	demoted  bool
 }
 
 type abortG struct{}
@@ -60,7 +64,8 @@ type Sched struct {
 	noTimers      bool // timers never fire (harness option)
 	switches      int
 	yieldOnly     bool
-	preemptBudget int // remaining preemptions at synchronisation operations (G2)
+	preemptBudget int  // remaining preemptions at synchronisation operations (G2)
+	demote        bool // rt.PreemptedRunLast: a preempted goroutine is not picked deterministically while others can run
 	maxPreempt    int
 	preempts      int
 }
@@ -195,11 +200,25 @@ func (e *Exec) reschedule(self *G) {
 			// nondeterministic choices happen only at rt.Yield() points
 			pick = runnable[0]
 			if pick != self {
+				// lowest id; with rt.PreemptedRunLast goroutines that were
+				// preempted come after all others
+				pick = nil
 				for _, g := range runnable {
-					if g.id < pick.id {
+					if s.demote && g.demoted {
+						continue
+					}
+					if pick == nil || g.id < pick.id {
 						pick = g
 					}
 				}
+				if pick == nil {
+					for _, g := range runnable {
+						if pick == nil || g.id < pick.id {
+							pick = g
+						}
+					}
+				}
+				pick.demoted = false
 			}
 		} else {
 			pick = runnable[e.chooseN(len(runnable), "schedule")]
@@ -211,6 +230,9 @@ func (e *Exec) reschedule(self *G) {
 		}
 		s.switches++
 		self.epoch++
+		if schedLog {
+			fmt.Fprintf(os.Stderr, "SCHED g%d(%s) [%s done=%v] -> g%d(%s)\n", self.id, self.entry, self.what, self.done, pick.id, pick.entry)
+		}
 		s.cur = pick
 		pick.resume <- true
 		if self.done {
@@ -541,7 +563,11 @@ func (e *Exec) preemptPoint(fr *frame) {
 		return
 	}
 	s.preemptBudget--
+	self.demoted = true
 	pick := others[k-1]
+	if schedLog {
+		fmt.Fprintf(os.Stderr, "SCHED preempt g%d(%s) in %s -> g%d(%s)\n", self.id, self.entry, fr.fn, pick.id, pick.entry)
+	}
 	s.switches++
 	s.cur = pick
 	pick.resume <- true
